@@ -230,6 +230,11 @@ func execute(cfg *Config) (obs *Obs) {
 					obs.StepCap = true
 					return
 				}
+				if rec.Limit > 0 && len(rec.Events) > rec.Limit {
+					// the step-cap panic was replaced by a secondary panic in a deferred function of the engine
+					obs.StepCap = true
+					return
+				}
 				obs.Panic = fmt.Sprintf("%v", r)
 				obs.PanicStack = panicFrames(string(debug.Stack()))
 			}
